@@ -152,6 +152,7 @@ type minimal struct {
 	clause string
 }
 
+var violCache = map[string]*core.Violation{}
 var minCache = map[string][]minimal{} // via+base clause -> minimal sequences found in this process
 
 func logString(log []rawEntry, ops []bop) string {
@@ -208,6 +209,11 @@ func judge(ops []bop, via string) (viols []*core.Violation, sig string, fires in
 			}
 			minCache[ck] = append(minCache[ck], minimal{mops, mclause})
 		}
+		key := fmt.Sprintf("B via=%s seq=[%s] clause=%s", via, seqString(mops), mclause)
+		if v, ok := violCache[key]; ok {
+			viols = append(viols, v)
+			continue
+		}
 		mres := runCase(mops, via)
 		detail := fmt.Sprintf("rendering: %s (%s)\nminimal sequence: %s; then Runtime.Close\nviolated clauses there: %v\nlog:\n%smonitor: %s\nfound in: %s (clauses %v)",
 			via, map[string]string{"lua": "one Lua chunk, contexts through runtime.callcontext", "go": "operation by operation through the Go API, contexts through Thread.CallContext"}[via],
@@ -215,10 +221,9 @@ func judge(ops []bop, via string) (viols []*core.Violation, sig string, fires in
 		if via == "lua" {
 			detail += "\nLua program (prelude defines newT/newU/remark/...; fire(i,id) is the seam event):\n" + renderLua(mops)
 		}
-		viols = append(viols, &core.Violation{
-			Key:    fmt.Sprintf("B via=%s seq=[%s] clause=%s", via, seqString(mops), mclause),
-			Detail: detail,
-		})
+		v := &core.Violation{Key: key, Detail: detail}
+		violCache[key] = v
+		viols = append(viols, v)
 	}
 	return
 }
@@ -233,6 +238,9 @@ func familyWanted(name string) bool {
 			if i+1 < len(os.Args) {
 				return os.Args[i+1] == name
 			}
+		}
+		if (a == "-case" || a == "--case") && i+1 < len(os.Args) {
+			return strings.HasPrefix(os.Args[i+1], name+":")
 		}
 		if strings.HasPrefix(a, "-family=") || strings.HasPrefix(a, "--family=") {
 			return a[strings.IndexByte(a, '=')+1:] == name
@@ -285,8 +293,9 @@ func partBFamilies(tier string) []*core.Family {
 		}
 	}
 	return []*core.Family{
-		seqFamily("B-seq-1val-allkinds-len5", bcfg{kinds: all, ctxKinds: ctxs, leaves: leaves, nvals: 1, maxDepth: 2, maxCtx: 2, length: 5}, 40),
-		seqFamily("B-seq-2val-len5", bcfg{kinds: small, ctxKinds: []uint8{cCPU, cSoft}, leaves: []uint8{lRet, lErr, lKill}, nvals: 2, maxDepth: 1, maxCtx: 2, length: 5}, 50),
+		seqFamily("B-seq-1val-allkinds-len5", bcfg{kinds: all, ctxKinds: ctxs, leaves: leaves, nvals: 1, maxDepth: 2, maxCtx: 2, length: 5}, 25),
+		seqFamily("B-seq-2val-len5", bcfg{kinds: small, ctxKinds: ctxs, leaves: leaves, nvals: 2, maxDepth: 2, maxCtx: 2, length: 5}, 40),
+		seqFamily("B-seq-2val-T-UFR-len6", bcfg{kinds: []uint8{kT, kUFR}, ctxKinds: []uint8{cCPU}, leaves: []uint8{lRet, lKill}, nvals: 2, maxDepth: 1, maxCtx: 1, length: 6}, 25),
 		ioFamily(),
 	}
 }
@@ -334,8 +343,8 @@ func ioFamily() *core.Family {
 			if a == 1 && (c == 5 || c == 6) {
 				return core.Outcome{Skipped: true} // nothing to write to a read-only file
 			}
-			bad, sig := runIO(a, b, c, d)
-			o := core.Outcome{NonTrivial: true, Sig: core.Hash64(sig)}
+			bad, sig, canon := runIO(a, b, c, d)
+			o := core.Outcome{NonTrivial: true, Sig: core.Hash64(canon)}
 			for _, cl := range bad {
 				o.Viols = append(o.Viols, &core.Violation{
 					Key:    fmt.Sprintf("B-io %s clause=%s", show(i), cl),
@@ -350,11 +359,11 @@ func ioFamily() *core.Family {
 // runIO: a file is opened (in a sentinel directory) at the given place and
 // never closed by the program unless the fate says so; descriptors are counted
 // after the context ended and after Runtime.Close.
-func runIO(open, place, fate, end int) (bad []string, sig string) {
+func runIO(open, place, fate, end int) (bad []string, sig string, canon string) {
 	dir := sentinelDir()
 	os.RemoveAll(dir)
 	if err := os.MkdirAll(dir, 0o755); err != nil {
-		return []string{"internal-mkdir"}, err.Error()
+		return []string{"internal-mkdir"}, err.Error(), ""
 	}
 	defer os.RemoveAll(dir)
 	oldTmp, hadTmp := os.LookupEnv("TMPDIR")
@@ -373,7 +382,7 @@ func runIO(open, place, fate, end int) (bad []string, sig string) {
 		f.Close()
 	}
 
-	m := newBMachine()
+	m := newBMachineLibs(true)
 	defer func() { curMachine = nil }()
 	var files []*seamReg // userdata holding files, in creation order
 	env := m.r.GlobalEnv()
@@ -481,9 +490,8 @@ func runIO(open, place, fate, end int) (bad []string, sig string) {
 	}
 	sig = fmt.Sprintf("status=%q base=%d held=%d afterctx=%d beforeclose=%d afterclose=%d left=%v content=%q src=%q",
 		status, base, fdHeld, fdAfterCtx, fdBeforeClose, fdAfterClose, left, content, src)
-	sigCanon := fmt.Sprintf("status=%q held=%d afterctx=%d beforeclose=%d afterclose=%d left=%v content=%q",
+	canon = fmt.Sprintf("status=%q held=%d afterctx=%d beforeclose=%d afterclose=%d left=%v content=%q",
 		status, fdHeld-base, fdAfterCtx-base, fdBeforeClose-base, fdAfterClose-base, left, content)
-	_ = sigCanon
 	if status != "" {
 		bad = append(bad, "internal-unexpected-error")
 	}
@@ -511,5 +519,5 @@ func runIO(open, place, fate, end int) (bad []string, sig string) {
 		// the release flushes what the program wrote
 		bad = append(bad, "written-data-lost")
 	}
-	return bad, sig
+	return bad, sig, canon
 }
